@@ -7,8 +7,8 @@ from .gen import Gen
 from .procs import Driver, Harness
 
 
-def run_history(h, d, seed, profile, stats, length, build="osmosis", monitors=None):
-    hist = History(h, d, seed, profile, stats, build=build, monitors=monitors)
+def run_history(h, d, seed, profile, stats, length, build="osmosis", monitors=None, mode="model"):
+    hist = History(h, d, seed, profile, stats, build=build, monitors=monitors, mode=mode)
     stats.histories += 1
     try:
         if not hist.boot():
@@ -28,22 +28,29 @@ def run_history(h, d, seed, profile, stats, length, build="osmosis", monitors=No
     return hist, None
 
 
-def run_many(n, seed, profile, length, build="osmosis", stop_on_first=True, monitors=None):
+def run_many(n, seed, profile, length, build="osmosis", stop_on_first=True, monitors=None, mode="model"):
     h = Harness(build)
-    d = Driver()
+    d = Driver() if mode == "model" else None
     stats = Stats()
     divs = []
+    findings = []
     try:
         for i in range(n):
             hs = seed * 1_000_003 + i
-            hist, dv = run_history(h, d, hs, profile, stats, length, build=build, monitors=monitors)
+            hist, dv = run_history(h, d, hs, profile, stats, length, build=build, monitors=monitors, mode=mode)
             if i < 2:
                 stats.samples.append({"seed": hs, "events": [e for e in hist.events[1:7]]})
+            for f in hist.findings:
+                f = dict(f)
+                f["seed"] = hs
+                f["events"] = hist.events[:f.pop("upto", len(hist.events))]
+                findings.append(f)
             if dv is not None:
                 divs.append({"seed": hs, "channel": dv.channel, "detail": dv.detail, "events": hist.events})
                 if stop_on_first:
                     break
     finally:
         h.close()
-        d.close()
-    return stats, divs
+        if d is not None:
+            d.close()
+    return stats, divs, findings
